@@ -570,6 +570,9 @@ func (x *Exec) loopEntry(li *loopInfo, phiVal func(*ssa.Phi, func(*ssa.BasicBloc
 		if k == "brk" {
 			continue
 		}
+		if _, known := e.heapSort[k]; !known {
+			continue // a component nothing has touched yet: its first read is unconstrained anyway
+		}
 		old := e.heapGet(preLoop, k)
 		nw := e.heapHavoc(x.st, k)
 		if mods[k] == "new" {
@@ -1495,9 +1498,6 @@ func (x *Exec) assignKey(s string) assignItem {
 	case strings.HasPrefix(s, "key(") && strings.HasSuffix(s, ")"):
 		// a heap component named directly (map components have no Go type name)
 		it.key = s[4 : len(s)-1]
-		if _, ok := e.heapSort[it.key]; !ok {
-			x.fail("assigns: unknown heap component %s", it.key)
-		}
 	case strings.HasPrefix(s, "heap(") && strings.HasSuffix(s, ")"):
 		t := e.prog.lookupType(s[5 : len(s)-1])
 		if t == nil {
